@@ -28,6 +28,16 @@ class Explorer:
         self._assign_count = {}
         for l, ds in self.du.defs.items():
             self._assign_count[l] = len(ds)
+        # locals whose address is taken mutably can change behind our back: never tracked
+        self._addr_taken = set()
+        for b in fn.blocks:
+            if b.cleanup:
+                continue
+            for st in b.stmts:
+                if st[0] == "a" and st[2][0] in ("ref", "rawptr") and (st[2][1] == "mut" or st[2][0] == "rawptr"):
+                    pl = st[2][2]
+                    if "*" not in pl[1]:
+                        self._addr_taken.add(pl[0])
         # only predicates tested at least twice can correlate two branches; tracking the others only
         # multiplies states
         self._sk_cache = {}
@@ -40,6 +50,15 @@ class Explorer:
             if sk is not None and sk[0] is not None:
                 k = (("b" if sk[1] == "bool" else "d"), sk[0])
                 count[k] = count.get(k, 0) + 1
+        # whole-local assignments of ADT aggregates set a fact (see _stmt_facts): they count as well
+        for b in fn.blocks:
+            if b.cleanup:
+                continue
+            for st in b.stmts:
+                if st[0] == "a" and not st[1][1] and st[2][0] == "agg" and st[2][1][0] == "adt" \
+                        and st[1][0] not in self._addr_taken and not self._immutable(st[1][0]):
+                    k = ("d", (st[1][0], ()))
+                    count[k] = count.get(k, 0) + 1
         self.relevant = {k for k, n in count.items() if n >= 2}
         # locals (re)defined per block: facts about them die when the block is entered again (loops)
         self._defs_in_block = {}
@@ -67,8 +86,14 @@ class Explorer:
                 key_proj.append(("v", p[1]))
             else:
                 return None
-        if not self._immutable(local):
+        if local in self._addr_taken:
             return None
+        if not self._immutable(local):
+            # a multiply-assigned local is tracked as its own root: its facts are set by aggregate
+            # assignments and killed by every other definition (see run())
+            if any(p == "*" for p in key_proj):
+                return None
+            return (local, tuple(key_proj))
         # follow copies / refs of whole places: _a = _b ; _a = &_b ; _a = copy (*_b)
         if depth < 12 and not (1 <= local <= self.fn.argc):
             d = self.du.single_def(local)
@@ -268,7 +293,7 @@ class Explorer:
         return None
 
     # ---- exploration
-    def run(self, init, transfer, at_exit, start_bb=0, init_preds=None):
+    def run(self, init, transfer, at_exit, start_bb=0, init_preds=None, on_edge=None):
         """transfer(bb, state) -> state' or list of states (None = path dies);
         at_exit(ret_bb, state, path_pred) is called for each (return block, state) reached."""
         seen = set()
@@ -281,6 +306,7 @@ class Explorer:
             if killed and preds:
                 if any(k[1][0] in killed for k in preds):
                     preds = {k: v for k, v in preds.items() if k[1][0] not in killed}
+            preds = self._stmt_facts(bb, preds)
             pkey = frozenset(preds.items())
             sig = (bb, st, pkey)
             if sig in seen:
@@ -300,8 +326,51 @@ class Explorer:
                     at_exit(bb, st2, lambda s=sig: self._path(parent, s))
                     continue
                 for s, np in self.edges(bb, preds):
-                    work.append((s, st2, np, sig))
+                    st3 = on_edge(bb, s, st2) if on_edge is not None else st2
+                    work.append((s, st3, np, sig))
         return n
+
+    def _stmt_facts(self, bb, preds):
+        """strong updates for whole-local assignments of ADT aggregates / copies (tracked mutable locals)"""
+        fn = self.fn
+        blk = fn.blocks[bb]
+        new = None
+        for st in blk.stmts:
+            if st[0] != "a" or st[1][1]:
+                continue
+            l = st[1][0]
+            key = ("d", (l, ()))
+            if key not in self.relevant:
+                continue
+            rv = st[2]
+            val = None
+            if rv[0] == "agg" and rv[1][0] == "adt":
+                val = self._variant_discr(rv[1][1], rv[1][2])
+            elif rv[0] == "use" and rv[1][0] in ("c", "m") and not rv[1][1][1]:
+                src = ("d", (rv[1][1][0], ()))
+                cur = new if new is not None else preds
+                if src in cur:
+                    val = cur[src]
+            if new is None:
+                new = dict(preds)
+            if val is not None:
+                new[key] = val if isinstance(val, frozenset) else frozenset({val})
+            else:
+                new.pop(key, None)
+        return new if new is not None else preds
+
+    def _variant_discr(self, adt_def_idx, variant):
+        name = self.fn.crate.defs[adt_def_idx]
+        if name.endswith("option::Option"):
+            return {"None": 0, "Some": 1}.get(variant)
+        if name.endswith("result::Result"):
+            return {"Ok": 0, "Err": 1}.get(variant)
+        a = self.fn.crate.facts.adts.get(name)
+        if a:
+            for v in a["variants"]:
+                if v["name"] == variant:
+                    return v["discr"]
+        return None
 
     @staticmethod
     def _path(parent, sig):
